@@ -3,6 +3,30 @@ import json, os
 VERIF = os.path.dirname(os.path.dirname(os.path.abspath(__file__)))
 
 CLAIMED = {
+    "C05": ("Lean 4 theorems (closure by saturation = reachability, component numbering invariant: total, same-label iff connected, labels exactly 1..n; backend adjacencies) + correspondence with cc3d/scipy + independent flood-fill oracle",
+            "For every finite voxel set and symmetric adjacency the model's labelling gives two voxels the same label exactly when they are connected, uses labels 1..n and reports n; cc3d adjacency never joins different semantic labels, scipy adjacency is face-only, the default backend is chosen by dimensionality. The model is compared with ConnectedComponentsInstanceApproximator (both backends and default) on generated and exhaustively enumerated semantic maps.",
+            "Trusted: Lean kernel + 3 standard axioms; harness; cc3d and scipy.ndimage.label are C extensions compared against the proved definition, not verified.",
+            "DESIGN.md §7 C05"),
+    "C07": ("Lean 4 theorems (border = foreground with a non-foreground face neighbour, nearest squared distance is the minimum, ASSD over Real.sqrt: symmetric, non-negative, zero iff borders coincide, invariant under every grid isometry incl. translation/flip/axis swap) + correspondence + brute-force oracle",
+            "The model returns the two exact lists of squared border distances; theorems characterise them and prove symmetry, zero-iff and isometry/embedding invariance for masks of any size and dimension. Metric.ASSD is compared with the model and with an independent brute-force computation on thin/ring/border-touching/far-apart masks and under embedding and tight cropping.",
+            "Trusted: Lean kernel + 3 standard axioms; harness; scipy binary_erosion / euclidean_feature_transform compared against the proved definitions; float64 mean of square roots compared within 1e-9.",
+            "DESIGN.md §7 C07"),
+    "C09": ("Lean 4 theorems (64-bit pair encoding exact below 2^32: candidates = overlapping label pairs; counts, selected masks and the matcher loop transported by injective relabelling; dtype independence via C04.relabel_pointwise) + metamorphic/correspondence runs at dtype boundaries",
+            "Candidate discovery is proved exact for all labels below 2^32 and every count/score/matching step commutes with injective relabelling; the real evaluator is run before/after injective relabellings into [1,2^24) (biased to 2^k-1, 2^k, 2^k+1, wrapping sums) over uint8..uint64 and compared, and the pair encoding is exercised directly up to 2^32-1.",
+            "Trusted: Lean kernel + 3 standard axioms; harness; equality is only claimed when no competing candidates tie (tie cases are skipped and counted); look-up-table memory bounds the relabelled values to < 2^24 through the full pipeline.",
+            "DESIGN.md §7 C09"),
+    "C10": ("Lean 4 theorems (bounding box contains the foreground for every padding, crop lemma: cropping = translation of the foreground, counts are functions of the multiset of foreground label pairs, Reach and adjacencies transported by grid isometries; ASSD by C07) + metamorphic/correspondence runs",
+            "The crop arithmetic keeps every foreground voxel and only translates coordinates; every count-based quantity is invariant under any rearrangement of voxels and removal of background; connectivity and border distances are transported by isometries. The real evaluator is compared before/after padding, tight cropping, flips, axis permutations and memory layouts; bounding box and whole-pair crop are compared with the model.",
+            "Trusted: Lean kernel + 3 standard axioms; harness; memory layout exists only on the implementation side; the model pipeline is crop-free (justified by the crop lemma, tied by correspondence).",
+            "DESIGN.md §7 C10"),
+    "C11": ("Lean 4 theorems (overlap counts, IoU and Dice mirrored; RVD r -> -r/(1+r); one-to-one threshold matching on mirrored candidates gives the mirrored assignment) + metamorphic/correspondence runs",
+            "Exchanging the roles mirrors every count and score and the one-to-one matcher commutes with the exchange (same candidate order, i.e. up to ties); evaluate(pred, ref) and evaluate(ref, pred) are compared on pairs with unequal instance counts, label gaps and label ranges near dtype boundaries.",
+            "Trusted: Lean kernel + 3 standard axioms; harness; tie cases are skipped and counted.",
+            "DESIGN.md §7 C11"),
+    "C12": ("Lean 4 theorems (restriction keeps exactly the group's labels, group result = pipeline on restricted arrays, non-interference, rejection iff an undefined label exists) + metamorphic/correspondence runs",
+            "Group evaluation is proved to be the pipeline on the restricted arrays (MATCHED for single-instance groups), independent of other groups' voxels, and to reject exactly the inputs with a label outside every group; the real evaluator with groups is compared with ungrouped evaluation of restricted arrays and with the model. One known finding (single-instance decision threshold) is listed in known_findings.json.",
+            "Trusted: Lean kernel + 3 standard axioms; harness.",
+            "DESIGN.md §7 C12"),
     "C02": ("Lean 4 theorems (list-length invariant of the evaluator, decision filter, fp/fn/rq/pq definitions, mean/variance, ranges) + model/implementation correspondence + independent bookkeeping oracle",
             "For every value type, order, metric selection, decision metric/threshold and every list of per-instance metric dictionaries (i.e. the output of every matcher) tp = number of passing instances and every list has tp entries; for every directly constructed result fp/fn/rq/sq/pq obey their definitions and ranges. The model is tied to the code by running both on generated pairs x input types x matchers x decision settings and on directly constructed results.",
             "Trusted: Lean kernel + 3 standard axioms; harness; sq_std is compared as sqrt of the model's exact variance within 1e-9; ASSD aggregates recomputed in float64 from the model's exact squared distances.",
